@@ -293,7 +293,6 @@ static void walkCase(Rng &rng, CaseResult &r) {
   if (polarised) {
     static const CellOrientation ro[4] = {CellOrientation::N, CellOrientation::FS, CellOrientation::S, CellOrientation::FN};
     for (auto &row : rows) row.orientation = ro[rng.range(0, 3)];
-    if (f.shape == 2 && rows.size() == 2) rows[1].orientation = rows[0].orientation;  // one orientation per y level
     static const CellRowPolarity pp[5] = {CellRowPolarity::ANY, CellRowPolarity::SAME, CellRowPolarity::OPPOSITE, CellRowPolarity::NW, CellRowPolarity::SE};
     for (int c = 0; c < n; ++c) {
       CellOrientation rowO = CellOrientation::N;
